@@ -574,8 +574,10 @@ def judge_probe(rec, rnd, tmp, k, fixed=None):
         desc = rnd.choice(['SQ *', 'APLPAY ', 'aplpay ', 'sq *']) + rnd.choice(['QQQ NOTHING xx', 'blue bottle coffee', 'ZZTOP']) + rnd.choice(['', ' 77'])
         rec.count('description_probes_rewritten_by_a_transform')
     amount = rnd.choice([5.0, 15.0, 150.0, 600.0, -30.0, -1.25, -600.0])
+    forced_earlier = None
     if fixed:
-        rf, mode, desc, amount = fixed
+        rf, mode, desc, amount = fixed[:4]
+        forced_earlier = fixed[4] if len(fixed) > 4 else None
     settings = {'year': 2025, 'merchants_file': 'config/merchants.rules', 'rule_mode': mode,
                 'data_sources': [{'name': 'Main', 'file': 'data/main.csv', 'format': '{date:%Y-%m-%d},{description},{amount}'}]}
     for sub in ('a', 'b'):
@@ -592,8 +594,10 @@ def judge_probe(rec, rnd, tmp, k, fixed=None):
     if rnd.random() < .4:
         # several things asked in ONE invocation: an earlier query that finds existing transactions by a piece of their statement text; the answer for
         # the description asked next is the same as when it is asked alone
-        earlier = [rnd.choice(['#0012', 'WHSE #0012', 'EXISTING THING'])]
+        earlier = [rnd.choice(['#0012', 'WHSE #0012', 'EXISTING THING', 'ZZ NEVER SEEN ANYWHERE 99', 'ZZ NEVER SEEN ANYWHERE 99'])]      # (the last: a text no rule matches and no statement holds)
         rec.count('description_probes_after_an_earlier_query')
+    if forced_earlier is not None:
+        earlier = forced_earlier
     pe = B.tally(os.path.join(root, 'a'), 'explain', *earlier, desc, os.path.join(root, 'a', 'config'), '--amount', str(amount), '--format', 'json')
     rec.count('cli_runs', 2)
     if U is None:
@@ -632,6 +636,9 @@ def judge_probe(rec, rnd, tmp, k, fixed=None):
         return
     want = (mu['name'], mu['category'], mu['subcategory'], (mu.get('pattern') or {}).get('matched') if mu['category'] != 'Unknown' else None)
     got = (T.get('merchant'), T.get('category'), T.get('subcategory'), (T.get('matched_rule') or {}).get('pattern'))
+    if 'is_unknown' in T and bool(T['is_unknown']) != (mu['category'] == 'Unknown'):
+        rec.violation('explain-description:unknown-flag-differs', f'explain {" ".join(repr(x) for x in earlier + [desc])} --amount {amount}: the answer for {desc!r} says is_unknown={T["is_unknown"]} '
+                      f'beside {got}; up assigns {want}', case)
     if got != want:
         rec.violation('explain-description:' + (mech or 'differs'), f'explain {desc!r} --amount {amount}: {got}; up assigns {want} (mode {mode})', case)
     if mech:
@@ -663,7 +670,7 @@ def fixed_scenarios(rec, rnd, tmp):
     """Scenarios the random budgets only meet now and then, run on every change."""
     for i, (rules, mode, desc, amount) in enumerate(FIXED_PROBES):
         rf = R.RuleFile(variables=[], rules=[R.Rule(n, m, c, sc, **kw) for n, m, c, sc, kw in rules])
-        judge_probe(rec, rnd, tmp, 9000 + i, fixed=(rf, mode, desc, amount))
+        judge_probe(rec, rnd, tmp, 9000 + i, fixed=(rf, mode, desc, amount, ['ZZ NEVER SEEN ANYWHERE 99'] if i % 2 else []))
     rec.count('fixed_description_probes', len(FIXED_PROBES))
     case = {'kind': 'fixed'}
 
